@@ -65,9 +65,12 @@ def gen_method(rng, idx):
         params.append({'name': f'k{i}', 'kind': 'kw', 'default': rng.choice(POOL) if hd else None, 'has_default': hd})
     names = [p['name'] for p in params]
     ignore = [n for n in names if rng.random() < 0.2] if names else []
+    if ignore and rng.random() < 0.4:
+        # a parameter whose name merely BEGINS with an ignored name (verbose / verbose_limit) is not ignored
+        params.append({'name': ignore[0] + '_limit', 'kind': 'kw', 'default': rng.choice(POOL), 'has_default': True})
     # ignored parameters need defaults to allow "omitted" spellings? not required; keep as is
     bare = (not ignore) and rng.random() < 0.25
-    return {'name': f'm{idx}', 'params': params, 'ignore': ignore, 'version': None if bare else rng.choice([None, None, '1', '2', '2024/05', 'exp/2', 0, '']),
+    return {'name': f'm{idx}', 'params': params, 'ignore': ignore, 'stacked': rng.random() < 0.2, 'version': None if bare else rng.choice([None, None, '1', '2', '2024/05', 'exp/2', 0, '']),
             'bare': bare}
 
 
@@ -94,7 +97,8 @@ def method_source(m):
         deco = f'@cached({", ".join(args)})'
     names = [p['name'] for p in m['params']]
     body = 'dict(' + ', '.join(f'{n}={n}' for n in names) + ')'
-    return f'    {deco}\n    def {m["name"]}({", ".join(parts)}):\n        return _exec(self, {m["name"]!r}, {body})\n'
+    inner = '    @_passthrough\n' if m.get('stacked') else ''       # another well-behaved (functools.wraps) decorator between @cached and the function
+    return f'    {deco}\n{inner}    def {m["name"]}({", ".join(parts)}):\n        return _exec(self, {m["name"]!r}, {body})\n'
 
 
 def canonical_binding(m, args, kwargs):
@@ -188,7 +192,14 @@ def run_class(rng, res: CaseResult, cache_kind):
     derived = rng.random() < 0.5
     # (half of the time the second class overrides the methods of the first under another version; the base implementations stay reachable on its objects)
     src += f'class KV{"(K)" if derived else ""}:\n    def __init__(self, cache):\n        self.cache = cache\n' + ''.join(method_source(m) for m in methods_v)
-    ns = {'cached': tcache.cached, '_exec': _exec}
+    import functools as _ft
+
+    def _passthrough(fn):
+        @_ft.wraps(fn)
+        def wrapper(*a, **k):
+            return fn(*a, **k)
+        return wrapper
+    ns = {'cached': tcache.cached, '_exec': _exec, '_passthrough': _passthrough}
     exec(src, ns)
     try:
         if cache_kind == 'json':
